@@ -361,11 +361,20 @@ impl<R: Read + io::Seek> ZipArchive<R> {
         // See if there's a ZIP64 footer. The ZIP64 locator if present will
         // have its signature 20 bytes in front of the standard footer. The
         // standard footer, in turn, is 22+N bytes large, where N is the
-        // comment length. Therefore:
-        let zip64locator = match reader.seek(io::SeekFrom::End(
-            -(20 + 22 + footer.zip_file_comment.len() as i64),
-        )) {
-            Ok(_) => match spec::Zip64CentralDirectoryEndLocator::parse(reader) {
+        // comment length.
+        let zip64locator = if cde_start_pos < 20 {
+            // The footer was found less than 20 bytes into the file (an empty Zip file): a
+            // locator does not fit in front of it, there is nothing to look at.
+            None
+        } else {
+            // The footer and its comment have been read at `cde_start_pos >= 20`, so the file
+            // is long enough for this position not to be negative: a failure of the seek, of
+            // whatever kind, is a real I/O problem and must not be taken for "no ZIP64 footer"
+            // (the 16/32-bit fields of a ZIP64 archive describe a different directory).
+            reader.seek(io::SeekFrom::End(
+                -(20 + 22 + footer.zip_file_comment.len() as i64),
+            ))?;
+            match spec::Zip64CentralDirectoryEndLocator::parse(reader) {
                 Ok(loc) => Some(loc),
                 Err(ZipError::InvalidArchive(_)) => {
                     // No ZIP64 header; that's actually fine. We're done here.
@@ -375,13 +384,7 @@ impl<R: Read + io::Seek> ZipArchive<R> {
                     // Yikes, a real problem
                     return Err(e);
                 }
-            },
-            // Empty Zip files have nothing in front of the footer: the position is negative
-            // and the seek is refused. That is fine, there is no locator to look at.
-            Err(e) if e.kind() == io::ErrorKind::InvalidInput => None,
-            // Any other failure is a real I/O problem and must not be taken for "no ZIP64
-            // footer": the 16/32-bit fields of a ZIP64 archive describe a different directory.
-            Err(e) => return Err(e.into()),
+            }
         };
 
         match zip64locator {
